@@ -29,7 +29,7 @@ func c07RandReqs(rnd *verifh.Rand, w *c07World, tab []c07Ent, avoidLimited bool)
 		} else {
 			p = int64(rnd.Intn(c07U))
 		}
-		if avoidLimited && w.limited(p) {
+		if avoidLimited && w.hasLimit(p) {
 			if rnd.Chance(1, 8) {
 				break
 			}
@@ -38,6 +38,23 @@ func c07RandReqs(rnd *verifh.Rand, w *c07World, tab []c07Ent, avoidLimited bool)
 		q = append(q, p)
 	}
 	return q
+}
+
+// the context of an open: 1 = made with network.WithAllowLimitedConn
+func c07Mode(rnd *verifh.Rand, w *c07World, out *verifh.Out) int64 {
+	if w.limited {
+		if rnd.Chance(19, 20) {
+			out.Cover("open.limited_conn.allowed")
+			return 1
+		}
+		out.Cover("open.limited_conn.not_allowed")
+		return 0
+	}
+	if rnd.Chance(1, 4) {
+		out.Cover("open.direct_conn.allow_flag_set")
+		return 1
+	}
+	return 0
 }
 
 func c07Case(out *verifh.Out, w *c07World, rnd *verifh.Rand, nops int) {
@@ -95,18 +112,23 @@ func c07Case(out *verifh.Out, w *c07World, rnd *verifh.Rand, nops int) {
 			r.setKnowledge(know)
 		case c < 84:
 			q := c07RandReqs(rnd, w, tab, false)
-			r.coverOpen(tab, know, q)
-			r.batch([][]int64{q}, rnd)
+			mode := c07Mode(rnd, w, out)
+			if mode == 1 || !w.limited {
+				r.coverOpen(tab, know, q)
+			}
+			r.batch([][]int64{q}, []int64{mode}, rnd)
 			know = r.lastKnow
 		case c < 90:
 			n := 2 + rnd.Intn(4)
 			var qs [][]int64
+			var modes []int64
 			for j := 0; j < n; j++ {
 				qs = append(qs, c07RandReqs(rnd, w, tab, true))
+				modes = append(modes, c07Mode(rnd, w, out))
 			}
 			out.Cover("batch.concurrent")
 			out.CoverN("batch.concurrent.opens", int64(n))
-			r.batch(qs, rnd)
+			r.batch(qs, modes, rnd)
 			know = r.lastKnow
 		default:
 			var slot int64 = int64(rnd.Intn(int(r.nslot) + 1))
@@ -136,6 +158,7 @@ func c07Worlds(t *testing.T) []*c07World {
 		c07NewWorld(t, 0, c07NoLimits(), c07NoLimits()),
 		c07NewWorld(t, 1, c07NoLimits(), c07NoLimits()),
 		c07NewWorld(t, 1, limD, limL),
+		c07NewWorld(t, 2, limD, limL),
 	}
 }
 
@@ -152,7 +175,7 @@ func TestVerifC07(t *testing.T) {
 			w.close()
 		}
 	}()
-	ncases := 900
+	ncases := 600
 	if verifh.Tier() == "thorough" {
 		ncases = 12000
 	}
@@ -181,6 +204,9 @@ func TestVerifC07Replay(t *testing.T) {
 	kind := in[1]
 	if in[2]&1 == 1 {
 		kind = 1
+	}
+	if in[2]&2 == 2 {
+		kind = 2
 	}
 	w := c07NewWorld(t, kind, append([]int64{}, in[4:4+c07U]...), append([]int64{}, in[4+c07U:4+2*c07U]...))
 	defer w.close()
@@ -217,12 +243,14 @@ func TestVerifC07Replay(t *testing.T) {
 			n := int(in[i+1])
 			i += 2
 			var qs [][]int64
-			for j := 0; j < n && ok(1); j++ {
-				m := int(in[i])
-				qs = append(qs, append([]int64{}, in[i+1:i+1+m]...))
-				i += 1 + m
+			var modes []int64
+			for j := 0; j < n && ok(2); j++ {
+				modes = append(modes, in[i])
+				m := int(in[i+1])
+				qs = append(qs, append([]int64{}, in[i+2:i+2+m]...))
+				i += 2 + m
 			}
-			r.batch(qs, rnd)
+			r.batch(qs, modes, rnd)
 			i += 8 * n
 			i += 1 + 2*int(in[i])
 			skipList()
